@@ -9,14 +9,17 @@
    A system is a record
      [nw, lat (3 rows of 3), cen (nw rows of 3, Cartesian), R (sequence of integer 3-vectors, contains <<0,0,0>>),
       mats (function: name -> table; "Ham": [iR][m][n] -> complex, "AA","SS": [iR][m][n][c] -> complex),
-      periodic (3 booleans), pg (set of <<3x3 integer matrix, TR>>)]
+      periodic (3 booleans), pg (set of <<3x3 integer matrix, TR>>), phon (is_phonon)]
+   The order of R is what a file / an object happens to use: two systems are the same system when they have the same
+   set of R-vectors and the same block for every R-vector (SameCore, SameMats below), whatever the order.
    A text file is a sequence of lines, a line a sequence of integers (float tokens are in eighths, the comment line and
    blank lines are <<>>): the layout is modelled where the readers' logic depends on it (Ndegen lines of 15 numbers,
    line cursor of get_system_tb, column-major (n outer, m inner) matrix rows, even/odd halves of the WCC file). *)
 EXTENDS Integers, Sequences, FiniteSets, TLC, SequencesExt, FiniteSetsExt
 
 CONSTANTS WccSplitCeil   \* read_WCC_WT_format splits the file at ceil(n/2) (TRUE: what the writer's data[::2], data[1::2]
-                         \* halves need) or at n \div 2 (FALSE: system_hr.py as read)
+                         \* halves need; system_hr.py since 849f3dda) or at n \div 2 (FALSE: the former defect, kept as a
+                         \* must-fail sensitivity variant)
 
 Zero3 == <<0, 0, 0>>
 Neg3(R) == <<-R[1], -R[2], -R[3]>>
@@ -49,23 +52,25 @@ HamBlockTb(s, nd, ir) ==
    << <<>>, s.R[ir] >> \o
    [j \in 1..(s.nw * s.nw) |-> LET m == RowM(j, s.nw)  n == RowN(j, s.nw)  h == s.mats["Ham"][ir][m][n]
                                IN <<m, n, h[1] * nd[ir], h[2] * nd[ir]>>]
-(* use_convention_II: AA[iR0, m, m] += wannier_centers_cart *)
-AAconvII(s, ir, m, n, c) ==
+(* use_convention_II (conv2, the default): AA[iR0, m, m] += wannier_centers_cart ; otherwise AA is written as it is *)
+AAconvII(s, ir, m, n, c, conv2) ==
    LET a == s.mats["AA"][ir][m][n][c]
-   IN IF ir = IR0(s.R) /\ m = n THEN <<a[1] + s.cen[m][c], a[2]>> ELSE a
-AABlockTb(s, nd, ir) ==
+   IN IF conv2 /\ ir = IR0(s.R) /\ m = n THEN <<a[1] + s.cen[m][c], a[2]>> ELSE a
+AABlockTb(s, nd, ir, conv2) ==
    << <<>>, s.R[ir] >> \o
    [j \in 1..(s.nw * s.nw) |-> LET m == RowM(j, s.nw)  n == RowN(j, s.nw)
-                                   a == [c \in 1..3 |-> AAconvII(s, ir, m, n, c)]
+                                   a == [c \in 1..3 |-> AAconvII(s, ir, m, n, c, conv2)]
                                IN <<m, n, a[1][1] * nd[ir], a[1][2] * nd[ir], a[2][1] * nd[ir], a[2][2] * nd[ir],
                                     a[3][1] * nd[ir], a[3][2] * nd[ir]>>]
 (* system_tb.write_tb_file (nd = Ndegen written; the code writes ones, files of other origin carry other values) *)
-TbLinesNd(s, nd) ==
+TbLinesNdC(s, nd, conv2) ==
    LET nR == Len(s.R) IN
    << <<>>, s.lat[1], s.lat[2], s.lat[3], <<s.nw>>, <<nR>> >> \o NdegenLines(nd)
    \o FlattenSeq([ir \in 1..nR |-> HamBlockTb(s, nd, ir)])
-   \o (IF Has(s, "AA") THEN FlattenSeq([ir \in 1..nR |-> AABlockTb(s, nd, ir)]) ELSE <<>>)
+   \o (IF Has(s, "AA") THEN FlattenSeq([ir \in 1..nR |-> AABlockTb(s, nd, ir, conv2)]) ELSE <<>>)
+TbLinesNd(s, nd) == TbLinesNdC(s, nd, TRUE)
 TbLines(s) == TbLinesNd(s, Ones(Len(s.R)))
+TbLinesC(s, conv2) == TbLinesNdC(s, Ones(Len(s.R)), conv2)
 
 (* system_hr.write_hr_file: rows "R1 R2 R3 m n re im", no blank lines *)
 HrLinesNd(s, nd) ==
@@ -94,7 +99,7 @@ Tok(l, k) == IF k <= Len(l) THEN l[k] ELSE 0
 
 (* get_system_tb(tb_file, wannier_centers_cart = wcc or None, berry = needAA): line cursor as in the code.
    hh = [[readline().split()[2:4] for _ in nw] for _ in nw] ... .transpose((1,0,2)) : element (m, n) is row (n-1)*nw + m *)
-ReadTb(f, needAA, wccGiven, wcc) ==
+ReadTbC(f, needAA, wccGiven, wcc, conv2) ==
    LET lat == <<SubSeq(f[2], 1, 3), SubSeq(f[3], 1, 3), SubSeq(f[4], 1, 3)>>
        nw == f[5][1]
        nR == f[6][1]
@@ -115,15 +120,17 @@ ReadTb(f, needAA, wccGiven, wcc) ==
        wccFile == [m \in 1..nw |-> [c \in 1..3 |-> AAraw(ir0, m, m, c)[1]]]
        cen == IF wccGiven THEN wcc ELSE wccFile
        AA == [ir \in 1..nR |-> [m \in 1..nw |-> [n \in 1..nw |-> [c \in 1..3 |->
-                 IF ir = ir0 /\ m = n THEN <<AAraw(ir, m, n, c)[1] - cen[m][c], AAraw(ir, m, n, c)[2]>>
+                 IF conv2 /\ ir = ir0 /\ m = n THEN <<AAraw(ir, m, n, c)[1] - cen[m][c], AAraw(ir, m, n, c)[2]>>
                  ELSE AAraw(ir, m, n, c)]]]]
        \* which AA blocks the code visits: all (needAA), 1..iR0 (centres wanted from the file), none
        visited == IF needAA THEN 1..nR ELSE IF ~wccGiven THEN 1..ir0 ELSE {}
-       base == [nw |-> nw, lat |-> lat, cen |-> cen, R |-> R, periodic |-> AllPeriodic, pg |-> TrivialPG]
+       base == [nw |-> nw, lat |-> lat, cen |-> cen, R |-> R, periodic |-> AllPeriodic, pg |-> TrivialPG, phon |-> FALSE]
    IN IF ndr.next = 0 THEN Fail("eof")
       ELSE IF Zero3 \notin {R[ir] : ir \in 1..nR} THEN Fail("ValueError")          \* iRvec.tolist().index([0,0,0])
       ELSE IF \E ir \in visited : ARline(ir) # R[ir] THEN Fail("ValueError")       \* assert / comparison of the R line (end of file: '' )
       ELSE Ok(base @@ [mats |-> IF needAA THEN ("Ham" :> Ham) @@ ("AA" :> AA) ELSE ("Ham" :> Ham)])
+(* convention_II_to_I = True is the default of get_system_tb *)
+ReadTb(f, needAA, wccGiven, wcc) == ReadTbC(f, needAA, wccGiven, wcc, TRUE)
 
 (* read_WCC_WT_format: data_2[::2] = data[:h]; data_2[1::2] = data[h:]  (numpy assignment: equal row counts, or a single
    source row is broadcast; anything else raises ValueError) *)
@@ -157,7 +164,7 @@ ReadHr(f, w, lat, wccGiven, wcc) ==
    IN IF ndr.next = 0 THEN Fail("eof")
       ELSE IF rw.err # "" THEN Fail(rw.err)
       ELSE Ok([nw |-> nw, lat |-> lat, cen |-> rw.cen, R |-> R, mats |-> ("Ham" :> Ham),
-               periodic |-> AllPeriodic, pg |-> TrivialPG])
+               periodic |-> AllPeriodic, pg |-> TrivialPG, phon |-> FALSE])
 
 -----------------------------------------------------------------------------
 (* directory of .npz files.  to_npz writes the essential properties (num_wann, real_lattice, iRvec, periodic, is_phonon,
@@ -173,7 +180,7 @@ GroupClosure(S) == LET T == S \cup {SymMul(a, b) : a, b \in S} IN IF T = S THEN 
 EmptyDir == [present |-> FALSE]
 SaveDir(old, s) ==
    [present |-> TRUE,
-    props |-> [nw |-> s.nw, lat |-> s.lat, cen |-> s.cen, R |-> s.R, periodic |-> s.periodic, pg |-> s.pg],
+    props |-> [nw |-> s.nw, lat |-> s.lat, cen |-> s.cen, R |-> s.R, periodic |-> s.periodic, pg |-> s.pg, phon |-> s.phon],
     mats |-> IF old.present THEN s.mats @@ old.mats ELSE s.mats]        \* same-named files are overwritten, others stay
 (* set_R_mat: value.shape[1:3] == (nw, nw) and value.shape[0] == nRvec *)
 ShapeOK(tab, nw, nR) == Len(tab) = nR /\ \A ir \in 1..Len(tab) : Len(tab[ir]) = nw /\ \A m \in 1..Len(tab[ir]) : Len(tab[ir][m]) = nw
@@ -182,9 +189,18 @@ LoadDir(d) ==
    ELSE IF \E k \in DOMAIN d.mats : ~ShapeOK(d.mats[k], d.props.nw, Len(d.props.R)) THEN Fail("AssertionError")
    ELSE Ok([d.props EXCEPT !.pg = GroupClosure(@)] @@ [mats |-> d.mats])
 -----------------------------------------------------------------------------
-(* what a round trip has to give back (C18) *)
-SameCore(s, t) == t.nw = s.nw /\ t.R = s.R /\ t.mats["Ham"] = s.mats["Ham"]
+(* what a round trip has to give back (C18): the same R-vectors as a set and the same block for every R-vector; the
+   order in which an object lists its R-vectors is not part of the statement *)
+RSet(s) == {s.R[i] : i \in 1..Len(s.R)}
+IdxR(s, r) == FirstIndex(s.R, r)
+SameRvectors(s, t) == Len(t.R) = Len(s.R) /\ RSet(t) = RSet(s)
+SameTable(s, t, k) == /\ SameRvectors(s, t) /\ k \in DOMAIN t.mats /\ k \in DOMAIN s.mats
+                      /\ Len(t.mats[k]) = Len(t.R)
+                      /\ \A r \in RSet(s) : t.mats[k][IdxR(t, r)] = s.mats[k][IdxR(s, r)]
+SameCore(s, t) == t.nw = s.nw /\ SameRvectors(s, t) /\ SameTable(s, t, "Ham")
 SameLattice(s, t) == t.lat = s.lat
 SameCentres(s, t) == t.cen = s.cen
-SameMats(s, t) == t.mats = s.mats
+(* every matrix of s comes back (t may carry more, e.g. a reader that always loads AA) *)
+HasMats(s, t) == SameRvectors(s, t) /\ \A k \in DOMAIN s.mats : SameTable(s, t, k)
+SameMats(s, t) == DOMAIN t.mats = DOMAIN s.mats /\ HasMats(s, t)
 =============================================================================
